@@ -56,7 +56,8 @@ POS = {
     "thorough": [
         ("PlayerHeap", "PlayerHeap_Thorough.cfg", 8, "HeapPlayer => Merge, 5 streams of any length, 2 looms, clocks 0..3, offsets {-2,0,3}"),
         ("PlayerHeap", "PlayerHeap_N6.cfg", 4, "HeapPlayer => Merge, 6 streams of any length, 2 looms, clocks 0..2, offsets {-2,0}"),
-        ("HeapOps", "HeapOps_Thorough.cfg", 6, "pointer heap, every reachable heap of <= 7 nodes, keys 0..3"),
+        ("HeapOps", "HeapOps_Thorough.cfg", 5, "pointer heap, every reachable heap of <= 7 nodes, keys 0..2"),
+        ("HeapOps", "HeapOps_Thorough6.cfg", 3, "pointer heap, every reachable heap of <= 6 nodes, keys 0..3"),
         ("PlayerMerge", "PlayerMerge_Thorough.cfg", 2, "Merge (property layer), 3 streams, <= 2 events, clocks 0..2, offsets {-2,0,3}"),
         ("PlayerEnum", "PlayerEnum_Thorough.cfg", 3, "whole replay x enumeration orders, 3 streams, <= 2 events, offsets {-2,0,3}"),
     ],
@@ -502,6 +503,22 @@ def build_shim(bdir):
     return out
 
 
+def keepalive(bdir):
+    """core.build removes builds whose stamp is older than 10 minutes when another
+    tree is built (mutation runs in parallel): keep ours fresh while TLC runs."""
+    import threading
+
+    def loop():
+        import time
+        while True:
+            time.sleep(120)
+            try:
+                os.utime(os.path.join(bdir, ".ok"))
+            except OSError:
+                return
+    threading.Thread(target=loop, daemon=True).start()
+
+
 def norm_sys(o):
     return {"loom": list(o["loom"]), "off": list(o["off"]), "clocks": [list(c) for c in o["clocks"]]}
 
@@ -512,10 +529,12 @@ def main(pid, tier):
     ck = core.Check(pid, "model_checking", tier)
     rng = random.Random(core.seed())
     bdir = core.build("hooks")
-    shim = build_shim(bdir)
+    keepalive(bdir)
 
     # ---- TLC: design level, negative configurations, exports
     jobs = run_tlc(tlc_jobs(tier), tier)
+    bdir = core.build("hooks")       # (same tree, same directory; rebuilt if another run cleaned it away)
+    shim = build_shim(bdir)
     exports = {}
     for j in jobs:
         r = j["r"]
